@@ -534,7 +534,11 @@ impl Run {
             for (v, p) in total.violations.iter().zip(replay_paths.iter()).take(3) {
                 println!(
                     "  violation kind={} case={} expected={} observed={} {}",
-                    v.kind, v.case, v.expected, v.observed, v.note
+                    v.kind,
+                    clip(&v.case.to_string(), 400),
+                    clip(&v.expected.to_string(), 300),
+                    clip(&v.observed.to_string(), 300),
+                    v.note
                 );
                 let _ = p;
             }
@@ -547,6 +551,15 @@ impl Run {
             std::process::exit(1);
         }
         std::process::exit(0);
+    }
+}
+
+fn clip(s: &str, n: usize) -> String {
+    if s.chars().count() <= n {
+        s.to_string()
+    } else {
+        let head: String = s.chars().take(n).collect();
+        format!("{}... ({} chars, full text in the replay file)", head, s.chars().count())
     }
 }
 
